@@ -121,6 +121,31 @@ def run(chk, tier, seed, prop="C03"):
         for e in h["edits"]:
             key = e[0] + ("_abi" if e[0] == "remove" and e[2] else "")
             chk.cov["edit_kinds"][key] = chk.cov["edit_kinds"].get(key, 0) + 1
+    # evolution steps outside the generated histories (and outside the Coq edit language, see DESIGN §9.3 C03): converted
+    # field types (#[savefile_versions_as] with a function / with From / chained, next to packable neighbours, nested)
+    # and appended enum variants; expected values come from hand-written upgrade functions in harness/src/evo_ops.rs
+    elines = []
+    for fam, pairs in (("conv", [(0, 0), (0, 1), (0, 2), (1, 1), (1, 2), (2, 2)]), ("convvec", [(0, 2), (1, 2)]), ("packedconv", [(0, 1), (1, 1)]),
+                       ("enum", [(0, 0), (0, 1), (0, 2), (1, 1), (1, 2), (2, 2)])):
+        for (j, k) in pairs:
+            for cont in ("bare", "plain", "noschema", "bzip2", "crypto"):
+                for vi in range(3 if fam == "conv" else 1):
+                    elines.append("E%d evo %s %s %d %d %d" % (len(elines), fam, cont, j, k, vi))
+    eobs = C.run_harness(binary, elines, timeout=600)
+    for l in elines:
+        cid = l.split(" ")[0]
+        o = eobs.get(cid, "MISSING")
+        chk.distinct.add(("evo",) + tuple(l.split(" ")[2:6]))
+        if " || EXPECTED " not in o:
+            chk.violations.append(("loading data saved by an earlier version of an evolved type did not complete (%s): %s" % (l.split(" ", 2)[2], o[:100]), {"harness_line": l}))
+            continue
+        got, exp = o[len("LOADED "):].split(" || EXPECTED ")
+        if got != exp:
+            p = l.split(" ")
+            chk.violations.append(("%s family: data saved at version %s and loaded by the version-%s definition (%s container) does not hold the converted / retained values" % (p[2], p[4], p[5], p[3]),
+                                   {"harness_line": l, "loaded": got[:500], "expected": exp[:500]}))
+    chk.add_eval(len(elines))
+    chk.cov["conversion_and_variant_cases"] = len(elines)
     chk.cov["rule"] = ("seeded evolution histories (add field with Default/default_val/default_fn at any position, remove by Removed/AbiRemoved, 1-3 versions, "
                        "nested and packed neighbours); for EVERY pair k <= j: value saved by the version-k program at version k, loaded by the version-j program; "
                        "oracle = upgrade by field name; model = dec k (annotated j) evaluated in Coq; distinct = (history, k, j, container)")
